@@ -87,9 +87,9 @@ PROPS = {
                        'judged against the principal table read from the implementation\'s own queries; plus admin/mixed histories',
     },
     'C11': {
-        'corpus': ['legacy-zero-amount-first.ops', 'burn-while-paused.ops'],
+        'corpus': ['legacy-zero-amount-first.ops', 'burn-while-paused.ops', 'upgrade-while-paused.ops'],
         'families': [matrix('c11'), gen('admin', 20, 100)],
-        'slice': [r'hub\..*', r'env\.legacy'],
+        'slice': [r'hub\..*', r'env\.legacy', r'env\.migrate'],
         'exhaustive': True,
         'thorough_mult': 6,
         'explanation': 'guard theorem + pause/unpause identity proved; matrix: every hub variant x 14 senders while paused, with and without legacy wait-list entries, un-pause attempts, migration steps; '
@@ -111,7 +111,7 @@ PROPS = {
         'explanation': 'mirror invariant through the message queue proved for every bSei message and every mirror message; Balance/TokenInfo vs Holder/State compared for the whole cast after every operation of token histories by holders, spenders and the hub',
     },
     'C02': {
-        'corpus': ['undelegation-refused.ops'],
+        'corpus': ['undelegation-refused.ops', 'unbond-from-zero-backed-pool.ops'],
         'families': [gen('registry', 25, 120), gen('mixed', 20, 120), gen('pricing', 20, 120), gen('release', 10, 120)],
         'slice': PRICING_KINDS + [r'hub\.ugi', r'env\.slash', r'reg\..*'],
         'explanation': 'delegate messages sum to the payment and target registered validators (via C12), books <= delegations after every check, undelegation exact; stored pool totals vs chain delegations and hub bank balance compared after every hub transaction, registry changing mid-history',
@@ -135,8 +135,8 @@ PROPS = {
         'explanation': 'payout = recorded share, single payment, order independence and the single-batch allocation bound proved; release groups of many batches with slashed unbonding stake, donations, many users per batch: released claims vs hub balance after every step, payout recomputed, second withdrawal, unfunded-claim probe (clone with extra coins)',
     },
     'C13': {
-        'corpus': ['reg-remove-zero-delegation.ops', 'reg-remove-last-idle.ops', 'reg-remove-while-paused.ops', 'reg-remove-with-inactive-peer.ops'],
-        'families': [gen('registry', 40, 120), gen('mixed', 15, 120)],
+        'corpus': ['reg-remove-zero-delegation.ops', 'reg-remove-last-idle.ops', 'reg-remove-while-paused.ops', 'reg-remove-with-inactive-peer.ops', 'registry-placeholder-hub.ops'],
+        'families': [gen('deploy', 25, 80), gen('registry', 40, 120), gen('mixed', 15, 120)],
         'slice': [r'reg\..*', r'hub\.redel', r'hub\.bond', r'hub\.bondst', r'hub\.ugi', r'env\.noredel', r'env\.inactive'],
         'explanation': 'registry removal / hub proxy / chain redelegation proved step by step (plan sums to the whole delegation via C12, targets still registered); end-to-end RemoveValidator transactions on the minichain with pending rewards, in-flight batches, blocked redelegations, removal and re-addition sequences',
     },
